@@ -171,7 +171,16 @@ func (c LongCodec) Omit(p unsafe.Pointer) bool {
 
 func (c LongCodec) Write(w *avro.WriteBuf, p unsafe.Pointer) {
 	t := *(*time.Time)(p)
-	l := t.UnixMicro()
+	// Store the time in the unit Read scales by.
+	var l int64
+	switch c.mult {
+	case 1000:
+		l = t.UnixMicro()
+	case 1e6:
+		l = t.UnixMilli()
+	default:
+		l = t.UnixNano()
+	}
 
 	c.Int64Codec.Write(w, unsafe.Pointer(&l))
 }
